@@ -66,6 +66,40 @@ package prolog
 //@   ensures[not-a-float] !(v is engine.Float) ==> result == errConversion && same(*d, old(*d))
 //@   ensures[closed] result == nil || result == errConversion
 
+//@ -- Scan into a string: exactly the text the answer's String method gives (nothing trimmed, folded or cut), or an error
+//@ extern fmt.Stringer.String
+//@   pure
+
+//@ func convertAssignString
+//@   property C15
+//@   requires d != nil
+//@   bind v = engine.(*Env).Resolve#1
+//@   modifies *d
+//@   at-call engine.(*Env).Resolve requires[resolves-the-answer] a0 == env && a1 == t
+//@   bind text = fmt.Stringer.String#1
+//@   at-call fmt.Stringer.String requires[the-text-of-the-answer-itself] a0 == v
+//@   ensures[exact-or-error] result == nil ==> called(text) && *d == text
+//@   ensures[no-text-is-an-error-and-stores-nothing] !called(text) ==> result == errConversion && *d == old(*d)
+//@   ensures[closed] result == nil || result == errConversion
+
+//@ -- Scan into a slice: every element of the list is converted, in the answer's environment, into the slot appended for
+//@ -- it, and a list that does not end in [] is an error
+//@ extern reflect.Value.Addr
+//@   pure
+//@   deterministic
+//@ extern reflect.Value.Interface
+//@   pure
+//@   deterministic
+
+//@ func convertAssignSlice
+//@   property C15
+//@   nosafety
+//@   bind cur = engine.(*ListIterator).Current#1
+//@   bind ierr = engine.(*ListIterator).Err#1
+//@   at-call convertAssign requires[the-current-element-in-the-answer-s-environment] called(cur) && a2 == cur && a1 == vm && a3 == env
+//@   at-call convertAssign requires[each-element-is-converted-into-the-slot-appended-for-it] a0 == reflect.Value.Interface(reflect.Value.Addr(reflect.Value.Index(local(v, reflect.Value), reflect.Value.Len(local(v, reflect.Value)) - 1)))
+//@   ensures[a-list-that-does-not-end-properly-is-an-error] called(ierr) && ierr != nil ==> result == errConversion
+
 //@ ---------------------------------------------------------------- the Solutions iterator as a sequential typestate (C12)
 //@ -- ghost field exhausted(s): 1 once a receive on s.next has found the channel closed (the producer goroutine has finished
 //@ -- and nobody will ever receive from s.more again)
@@ -113,6 +147,16 @@ package prolog
 //@   ensures[an-integer-is-that-int] v is engine.Integer ==> result == nil && (*d) is int && ((*d) as int) == (v as engine.Integer)
 //@   ensures[a-float-is-that-float64] v is engine.Float ==> result == nil && (*d) is float64 && ((*d) as float64) == (v as engine.Float)
 //@   ensures[an-atom-is-its-name] v is engine.Atom && (v as engine.Atom) != atomEmptyList ==> result == nil && (*d) is string
+//@   ensures[an-atom-is-exactly-its-name] v is engine.Atom && (v as engine.Atom) != atomEmptyList ==> ((*d) as string) == engine.Atom.String(v as engine.Atom)
+//@ -- ([]interface{} cannot be named in a clause: the empty list is told apart from what an unbound variable and an atom give)
+//@   ensures[the-empty-list-is-neither-nil-nor-a-name] v is engine.Atom && (v as engine.Atom) == atomEmptyList ==> result == nil && *d != nil && !((*d) is string)
+//@   ensures[a-float-keeps-every-bit] v is engine.Float ==> same((*d) as float64, v as engine.Float)
+//@   bind cur = engine.(*ListIterator).Current#1
+//@   at-call convertAssign requires[each-element-is-converted-into-the-slot-appended-for-it] a0 == &local(s, []any)[len(local(s, []any)) - 1]
+//@   at-call convertAssign requires[the-current-element-in-the-answer-s-environment] called(cur) && a2 == cur && a1 == vm && a3 == env
+//@   bind ierr = engine.(*ListIterator).Err#1
+//@   ensures[a-list-that-does-not-end-properly-is-an-error] called(ierr) && ierr != nil ==> result == errConversion
+//@   ensures[anything-else-is-an-error] !(v is engine.Variable) && !(v is engine.Atom) && !(v is engine.Integer) && !(v is engine.Float) && !(v is engine.Compound) ==> result == errConversion
 
 //@ -- the producer's answer continuation: hands the answer over, waits for the consumer's request, and ends the run
 //@ -- successfully (never with an error that a catch/3 could intercept) when the consumer wants no more or has closed
@@ -127,10 +171,15 @@ package prolog
 
 //@ -- Scan into a map: each variable is converted into a destination allocated for it in its own iteration (a shared
 //@ -- destination would let a later variable overwrite what an earlier one was given)
+//@ -- (of the body only the arguments handed to convertAssign are checked: the variable converted is the one whose name
+//@ -- selects the destination, and it is looked up in the environment of the current answer)
 //@ func (*Solutions).Scan
 //@   property C12 C15
-//@   trusted
+//@   requires s != nil
+//@   nosafety
+//@   checks only at-call at-call-missing
 //@   fresh-per-iteration convertAssign#2 0 reflect.New
+//@   at-call convertAssign requires[the-variable-of-that-name-in-the-current-answer-s-environment] a1 == s.vm && a2 == local(v, engine.ParsedVariable).Variable && a3 == s.env
 
 //@ -- the producer goroutine (sequential view): starts the search only when the consumer asks for an answer, keeps the
 //@ -- error the search ends with for Err, and closes `next` when it is over so that Next can tell
